@@ -4,18 +4,21 @@ from __future__ import annotations
 
 import json
 import random
+import subprocess
 from typing import Any
 
 from props import c22_pipe as pp
 from props import c22_rv as rv
 from props import c22_snip as sn
+from props import c22_tv as tv
 from vp import core, miniir, proggen
 
 META = {
     "title": "RISC-V backend output computes the source results and keeps callee state",
     "category": "proof",
     "design_ref": "DESIGN.md §5 C22",
-    "lean_modules": ["XdslProofs.C22", "XdslProofs.C22Frame"],
+    "lean_modules": ["XdslProofs.C22", "XdslProofs.C22Frame", "XdslProofs.C22Kernels", "XdslProofs.C22Validate"],
+    "extra_targets": ["XdslGen", "driver_gen"],
     "text": (
         "Lean (BitVec 32, x0 hard-wired, Mathlib-free): an RV32IM(+rv32-dialect bit immediates) machine with a straight-line "
         "executor `exec` and a program-counter executor `run`; every integer pattern of canonicalization_patterns/riscv.py "
@@ -36,7 +39,22 @@ META = {
         "program-counter machine on the emitted assembler text) against the Lean reference semantics of the source; "
         "callee-saved registers and sp compared at return (values pinned to s-registers to exercise prologue/epilogue), "
         "emitted prologue/epilogue = Lean prologue/epilogue, real cmpi lowering = Lean table; (C) py_operation of the "
-        "rv32/rv64 immediate-shift ops vs bit formulas. riscv_cf: constEvaluate_sound (const_evaluate of beq/bne/blt/bge/bltu/bgeu "
+        "rv32/rv64 immediate-shift ops vs bit formulas. TRANSLATED KERNELS (C22Kernels, regenerated from the source every run by "
+        "harness/translate: lean/XdslModel/Generated/RiscvPyOps.lean): py_operation of the 8 rv32 and 8 rv64 immediate-shift / single-bit "
+        "classes, const_evaluate of the 6 riscv_cf branches, _fits_si12, _folded_li_immediate. kernel32_sound / kernel64_sound: for every "
+        "payload of i32 (i64) and every shift amount < XLEN the kernel does not raise and returns the two's-complement reading of the "
+        "register the instruction writes (BitVec 32 machine model resp. BitVec 64); pyShift_eq_kernel: the hand-written fold of the rule "
+        "model is the translated kernel; const_evaluate_sound: const_evaluate = the branch decision of the machine for all Python ints; "
+        "fits_si12_eq, folded_li_immediate_i32/_i64/_sound. Each translated definition is run through driver_gen against the real function "
+        "on boundary and random values (raise <-> none). PROVED VALIDATOR (C22Validate, XdslModel/RiscVValidate.lean): validate src body : Bool "
+        "symbolically executes the emitted RV32 instruction list of a loop-free, call-free i32 function over the 31 entry registers "
+        "(expression trees; sp-relative spill slots), normalises source and target terms to polynomials modulo 2^32 over hash-consed atoms "
+        "for the non-polynomial operations (with the and/or/xor/div identities canonicalization uses) and compares; validate_sound: "
+        "acceptance implies that from EVERY entry state with aligned sp the body runs without trap, a0.. hold the source results whenever "
+        "MLIR defines them (source semantics = Sem.intBin/Sem.cmpi of the reference semantics), and ra, sp, s0-s11 are restored; "
+        "backend_correct_straightline_partial: the same on the program-counter machine for body; ret. Leg B runs validate on every "
+        "loop-free function that reaches the assembler (all certified on the unchanged tree); a rejected function is searched for a "
+        "failing input (boundary cross product + random, Lean evalSrc as reference), loops stay on the stage-wise execution path. riscv_cf: constEvaluate_sound (const_evaluate of beq/bne/blt/bge/bltu/bgeu "
         "= what the branch instruction does, incl. equal operands) and elideConstantBranch_sound (the folded branch gives the same "
         "machine step); leg A runs every conditional branch op × boundary/equal constant pairs (li / mv / zero shapes, allocated "
         "and not) and constant-bound block-structured loops through the real canonicalize and executes before/after on a "
@@ -47,11 +65,16 @@ META = {
         "interference analysis (value-token tracking over registers, loop bodies re-run to a fixpoint) finds a live value "
         "overwritten in a loop-carried register."
     ),
-    "technique": "Lean 4 proofs of rewrite rules over an RV32 BitVec machine + differential snippets + stage-wise translation validation on an independent machine model",
+    "technique": "Lean 4 proofs of rewrite rules over an RV32 BitVec machine + theorems over fold kernels translated from the Python source + a proved symbolic-execution translation validator run on every emitted loop-free function + differential snippets + stage-wise execution on an independent machine model",
     "level_note": (
-        "Proved: per-rule soundness/encodability on the model, cmpi table, frame discipline for straight-line bodies. "
+        "Proved: per-rule soundness/encodability on the model, cmpi table, frame discipline for straight-line bodies, the translated "
+        "fold kernels, soundness of the translation validator (all inputs, per accepted function). "
         "Validated per program, not proved: the lowering passes, register allocation, parallel-move lowering and the "
-        "loop lowering (executed on generated programs × inputs; ∀-programs is enumeration). Outside the machine "
+        "loop lowering (loop-free functions: certified for all inputs by the proved validator, ∀-programs is enumeration; functions with "
+        "scf.for or calls: executed on generated programs × inputs only). The validator is incomplete by design (ring identities mod 2^32 + "
+        "the listed bitwise/division identities): a rejection is not a finding, it triggers a failing-input search and is otherwise "
+        "recorded as unproved in the evidence (0 on the unchanged tree). i1 results cannot leave a riscv function in the pinned pipeline "
+        "(riscv-lower-parallel-mov: unsupported width), so cmpi reaches the validator only through the Lean examples. Outside the machine "
         "model (stated): float patterns (RemoveRedundantFMv/FMvD, Load/Store{FloatWord,Double}WithKnownOffset — their "
         "integer address arithmetic is the same code as the lw/sw rules —, FuseMultiplyAddD), snitch ScfgwOpUsingImmediate, "
         "RV64 execution (only py_operation kernels of rv64 are checked). Pipeline exceptions count as 'does not "
@@ -72,13 +95,18 @@ META = {
         "loops (bge/blt, bgeu/bltu, beq/bne; zero-trip, lb == ub, one trip, INT_MAX bound) + random pairs; non-trivial = a "
         "branch was folded. Pipeline programs include 6 fixed + random nested loops (inner result yielded by the outer loop, outer "
         "carried value read in the inner body, ≥ 2 iterations, also zero-trip) and 7 constant-bound loops with equal/adjacent "
-        "bounds, each also through the cf path. Distinct = distinct (snippet | program, input)."
+        "bounds, each also through the cf path. Distinct = distinct (snippet | program, input). Validator: every generated program without "
+        "scf.for / call whose assembler is label + straight-line body + ret (non-trivial = certified function, distinct by source and body); "
+        "translated kernels: 16 shift kernels x 8 shift amounts x 21 constants, 6 const_evaluate x 40 pairs x {32, 64}, _fits_si12 and "
+        "_folded_li_immediate on 27 boundary/random values x 4 source type lists."
     ),
     "trusted_base": [
         "independent Python RV32 machine harness/props/c22_rv.py (cross-checked against the Lean machine every run)",
         "hand-written Lean models XdslModel/RiscV.lean, RiscVRules.lean (rules tied to the real patterns by per-op correspondence)",
         "Lean reference semantics XdslModel/Sem.lean for the source programs (C15)",
         "assembler-text parser for the emitted subset; an instruction it cannot read counts as not assembling",
+        "translator harness/translate/py2lean.py + generate.py (regenerated and cross-checked against the real kernels every run)",
+        "source encoder harness/props/c22_tv.py (func.func -> Src of the validator); Lean evalSrc is compared with the reference semantics on every sampled input",
     ],
     "budget": {"quick": 100, "thorough": 1100},
 }
@@ -531,6 +559,8 @@ def run_pipeline(ctx: core.Ctx) -> None:
     expect: list[Any] = []
     lean_lines: list[str] = []
     lean_expect: list[tuple[str, Any, str]] = []
+    tv_lines: list[str] = []
+    tv_items: list[dict[str, Any]] = []
     for idx, p in enumerate(progs):
         if ctx.time_left() < 30:
             ctx.count("legB.skipped_for_time")
@@ -541,6 +571,7 @@ def run_pipeline(ctx: core.Ctx) -> None:
         except Exception as e:  # noqa: BLE001
             ctx.count("legB.generator_rejected." + core.exc_name(e))
             continue
+        src = tv.src_of(m)  # the validator's view of the source (None: loops, calls, other types)
         ctx.programs += 1
         vecs = g.inputs(p["arg_types"], 5)
         if idx < ndirected and len(p["arg_types"]) == 2:
@@ -558,12 +589,30 @@ def run_pipeline(ctx: core.Ctx) -> None:
             ctx.count("legB.cf_path.does_not_compile." + ".".join(res["nocompile_cf"][:3]))
         elif any(sn_ == "C5-cfasm" for sn_, _, _ in res["stages"]):
             ctx.count("legB.cf_path.compiled")
+        # translation validation with the proved validator: every loop-free function that reached the assembler
+        item = None
+        if src is None:
+            ctx.count("legB.tv.not_straightline")
+        elif res["prog"] is None:
+            ctx.count("legB.tv.not_compiled")
+        else:
+            body = tv.body_of(res["prog"])
+            if body is None:
+                ctx.count("legB.tv.unsupported_assembler_shape")
+            else:
+                item = {"p": p, "src": src[0], "body": body, "prog": res["prog"], "asm": res["asm"], "pin_seed": pin_seed,
+                        "tv_at": len(tv_lines), "ev": [], "bad": []}
+                tv_lines.append(tv.tv_line(src[0], body))
+                tv_items.append(item)
         sem_lines.append("prog " + sexp)
         expect.append(None)
         for i, vec in enumerate(vecs):
             sem_lines.append("run 200000 main " + " ".join(miniir.arg_text(t, v) for t, v in zip(p["arg_types"], vec)))
             expect.append((p, vec, regsets[i], [(s, o[i], txt) for s, o, txt in res["stages"]], pin_seed,
-                           (res["unsafe_loops"], res["interference"])))
+                           (res["unsafe_loops"], res["interference"]), item))
+            if item is not None:
+                item["ev"].append(len(tv_lines))
+                tv_lines.append(tv.ev_line(src[0], vec))
             ctx.ev()
         # Lean machine vs Python machine on the emitted assembler
         for fin in pp.FINALS:
@@ -608,13 +657,17 @@ def run_pipeline(ctx: core.Ctx) -> None:
             if o != "ok":
                 raise core.InfraError("MiniIR serialisation rejected by the Lean parser")
             continue
-        p, vec, regs, stage_obs, pin_seed, (unsafe, interf) = e
+        p, vec, regs, stage_obs, pin_seed, (unsafe, interf), item = e
         want = pp.want_from_sem(o, p["ret_types"])
+        if item is not None:
+            item.setdefault("sem", []).append(want)
         if want is None:
             ctx.count("legB.source_outcome." + o.split(" ")[0])
             continue
         ctx.count("legB.source_outcome.ok")
         bad = judge(p, regs, want, stage_obs)
+        if item is not None and bad is not None:
+            item["bad"].append((bad[0], bad[1], vec))
         if any(sn_ == pp.FINAL for sn_, _, _ in stage_obs):
             ctx.disagreements_checked += 1
             ctx.nt(("B", p["text"], tuple(vec)))
@@ -637,6 +690,7 @@ def run_pipeline(ctx: core.Ctx) -> None:
             case = shrink_program(ctx, case, sname, sig)
         ctx.fail(site, sig, case, desc, {"stage": sname, "observation": obs,
                                          "stage_output": next(t for s, _, t in stage_obs if s == sname)[:3000]}, {"source_results": want})
+    run_validator(ctx, tv_lines, tv_items)
     outs = ctx.model("riscv", lean_lines) if lean_lines else []
     for (kind, case, want), got in zip(lean_expect, outs):
         ctx.count(f"lean.{kind}")
@@ -652,6 +706,98 @@ def run_pipeline(ctx: core.Ctx) -> None:
                          else "real LowerArithCmpi output vs Lean lowerCmpi")
     if progs:
         ctx.sample({"leg": "B", "program": progs[-1]["text"]})
+
+
+TV_SITE = "xdsl.backend.riscv.lowering[straight-line function]"
+SEARCH_VALUES = [0, 1, -1, 2, 3, 5, 31, 32, 33, -2, -3, 2047, 2048, -2048, 65536, (1 << 31) - 1, -(1 << 31), -(1 << 31) + 1, 0x55555555, -0x55555556]
+
+
+def run_validator(ctx: core.Ctx, tv_lines: list[str], tv_items: list[dict[str, Any]]) -> None:
+    """Lean `validate` (proved sound: XdslProofs/C22Validate.lean) on every loop-free function the pipeline
+    emitted, and Lean `evalSrc` (the source semantics of that theorem) against the reference semantics `sem`.
+
+    accepted  -> the function is certified for ALL inputs (counted; an accepted function that misbehaved on
+                 the Python machine would be a correspondence failure of the machine models);
+    rejected  -> the validator is incomplete by design, so a rejection alone is not a finding: the function is
+                 searched for a failing input (boundary cross product + random vectors, source semantics from
+                 Lean `evalSrc`); a found input is reported through the stage-wise path (first stage that is
+                 wrong on it), no input found is recorded as `unproved`."""
+    if not tv_lines:
+        return
+    outs = ctx.model("riscv_validate", tv_lines)
+    unproved: list[dict[str, Any]] = []
+    for it in tv_items:
+        p = it["p"]
+        verdict = outs[it["tv_at"]]
+        if verdict == "bad-op":
+            ctx.count("legB.tv.protocol_unsupported")
+            continue
+        # source semantics of the validator = reference semantics, on the sampled inputs
+        for k, want in zip(it["ev"], it.get("sem", [])):
+            got = outs[k]
+            ctx.count("legB.tv.src_eval_compared")
+            if want is None:
+                if got.startswith("ok"):
+                    ctx.mismatch("correspondence:C22/riscv-validate-src", {"leg": "B", "program": p["text"], "line": tv_lines[k]}, "undefined", got,
+                                 "source semantics of the validator (evalSrc) defines a result where the reference semantics (sem) does not")
+            elif got != "ok " + " ".join(str(v) for v in want):
+                ctx.mismatch("correspondence:C22/riscv-validate-src", {"leg": "B", "program": p["text"], "line": tv_lines[k]},
+                             "ok " + " ".join(str(v) for v in want), got,
+                             "source semantics of the validator (evalSrc) vs reference semantics (sem)")
+        if verdict == "ok":
+            ctx.count("legB.tv.certified")
+            ctx.nt(("B-tv", p["text"], it["body"]))
+            wrong = [b for b in it["bad"] if b[0] == pp.FINAL]
+            if wrong:
+                ctx.mismatch("correspondence:C22/riscv-validate", {"leg": "B", "program": p["text"], "asm": it["asm"], "args": wrong[0][2]},
+                             f"{wrong[0][1]} on the Python RV32 machine", "validate = ok",
+                             "the proved validator accepted a function that misbehaves on the Python machine (machine models disagree?)")
+            continue
+        ctx.count("legB.tv.rejected." + verdict.split(":", 1)[-1].split("@")[0])
+        if it["bad"]:
+            ctx.count("legB.tv.rejected_and_failing_input_known")  # already reported by the stage-wise path
+            continue
+        found = search_failing_input(ctx, it)
+        if found is None:
+            ctx.count("legB.tv.unproved")
+            unproved.append({"program": p["text"], "asm": it["asm"], "validator": verdict})
+    if unproved:
+        ctx.extra["tv_unproved"] = unproved[:5]
+
+
+def search_failing_input(ctx: core.Ctx, it: dict[str, Any]) -> Any:
+    """a rejected function: look for an input on which the emitted code differs from the source"""
+    p = it["p"]
+    n = len(p["arg_types"])
+    rng = random.Random(hash(p["text"]) & 0xFFFFFF)
+    vecs: list[list[int]] = []
+    if n <= 2:
+        vecs = [[a] if n == 1 else [a, b] for a in SEARCH_VALUES for b in (SEARCH_VALUES if n == 2 else [0])]
+    vecs += [[rng.choice(SEARCH_VALUES) if rng.random() < 0.6 else rng.randint(-(1 << 31), (1 << 31) - 1) for _ in range(n)] for _ in range(300)]
+    outs = ctx.model("riscv_validate", [tv.ev_line(it["src"], v) for v in vecs])
+    nret = len(p["ret_types"])
+    for vec, o in zip(vecs, outs):
+        if not o.startswith("ok"):
+            continue
+        want = [int(x) for x in o.split()[1:]]
+        regs = pp.entry_regs(rng, vec)
+        ob = pp.run_asm(it["prog"], regs, nret)
+        bad = judge(p, regs, [(w & 1) if t == "i1" else w for w, t in zip(want, p["ret_types"])], [(pp.FINAL, ob, it["asm"])])
+        if bad is None:
+            continue
+        # blame the first stage that is wrong on this input
+        res = compile_and_run(p, [vec], [regs], it["pin_seed"], None)
+        stage_obs = [(s_, o_[0], txt) for s_, o_, txt in res["stages"]]
+        bad2 = judge(p, regs, [(w & 1) if t == "i1" else w for w, t in zip(want, p["ret_types"])], stage_obs) or bad
+        sname, sig, desc, obs = bad2
+        case = {"leg": "B", "program": p["text"], "arg_types": p["arg_types"], "ret_types": p["ret_types"], "args": vec,
+                "entry_regs": regs, "pin_seed": it["pin_seed"]}
+        ctx.count("legB.tv.rejected_failing_input_found")
+        ctx.fail(pp.STAGE_SITE[sname], sig, case, desc + " (input found after the proved validator refused to certify the function)",
+                 {"stage": sname, "observation": obs, "stage_output": next((t for s_, _, t in stage_obs if s_ == sname), it["asm"])[:3000]},
+                 {"source_results": want})
+        return case
+    return None
 
 
 def frame_of(prog: list[tuple[str, list[Any]]], fname: str) -> tuple[list[str], str] | None:
@@ -754,13 +900,34 @@ def ref_shift(name: str, x: int, n: int, w: int) -> int:
     return r
 
 
+def run_generated(lines: list[str]) -> list[str]:
+    """the translated kernels (lean/XdslModel/Generated/*.lean) through `driver_gen`"""
+    exe = core.LEAN / ".lake" / "build" / "bin" / "driver_gen"
+    if not exe.exists():
+        raise core.InfraError("driver_gen not built")
+    p = subprocess.run([str(exe)], input="".join(l + "\n" for l in lines), capture_output=True, text=True, timeout=600)
+    if p.returncode != 0:
+        raise core.InfraError("driver_gen failed: " + p.stderr[-300:])
+    out = p.stdout.split("\n")
+    if out and out[-1] == "":
+        out.pop()
+    if len(out) != len(lines):
+        raise core.InfraError("driver_gen line count mismatch")
+    return out
+
+
 def run_shift_kernels(ctx: core.Ctx) -> None:
+    """oracle: py_operation(c) of every immediate-shift class = the instruction's result (bit formula);
+    correspondence: the *translated* kernel (the definition the C22Kernels theorems are about) returns what
+    the real method returns, `none` exactly where the real method raises"""
     from xdsl.dialects import rv32, rv64
     from xdsl.dialects.builtin import IntegerAttr, i32, i64
     from xdsl.dialects.test import TestOp
     from xdsl.dialects.riscv import Registers
 
     src = TestOp(result_types=[Registers.UNALLOCATED_INT]).results[0]
+    gen_lines: list[str] = []
+    gen_expect: list[tuple[Any, str]] = []
     for mod, w, ty in ((rv32, 32, i32), (rv64, 64, i64)):
         classes = {"slli": mod.SlliOp, "srli": mod.SrliOp, "srai": mod.SraiOp, "bclri": mod.BclrIOp, "bexti": mod.BextIOp,
                    "binvi": mod.BinvIOp, "bseti": mod.BsetIOp, "rori": mod.RorIOp}
@@ -775,8 +942,12 @@ def run_shift_kernels(ctx: core.Ctx) -> None:
                     try:
                         got = op.py_operation(IntegerAttr(c, ty)).value.data
                         line = str(got & ((1 << w) - 1))
+                        gline = f"int {got}"
                     except Exception as e:  # noqa: BLE001
                         line = "raise " + core.exc_name(e)
+                        gline = "none" if core.exc_name(e) == "VerifyException" else line
+                    gen_lines.append(f"RiscvPyOps.rv{w}_{cls.__name__}_py_operation {c} {n}")
+                    gen_expect.append(({"leg": "C", "xlen": w, "op": name, "constant": c, "shamt": n}, gline))
                     ctx.count(f"legC.rv{w}.{name}")
                     if want != (c & ((1 << w) - 1)):
                         ctx.nt(("C", w, name, n, c))
@@ -784,6 +955,61 @@ def run_shift_kernels(ctx: core.Ctx) -> None:
                         ctx.fail(f"xdsl.dialects.rv{w}.{cls.__name__}.py_operation", "constant fold of an immediate shift is not the instruction's result",
                                  {"leg": "C", "xlen": w, "op": name, "constant": c, "shamt": n},
                                  f"py_operation({c}) of {name} {n} at XLEN={w}", line, str(want))
+    # const_evaluate of the riscv_cf branches, _fits_si12, _folded_li_immediate: translated definition vs the real function
+    from xdsl.dialects import riscv_cf
+    from xdsl.transforms.canonicalization_patterns import riscv as cpr
+
+    pairs = list(sn.BR_PAIRS) + [(ctx.rng.randint(-2**33, 2**33), ctx.rng.randint(-2**33, 2**33)) for _ in range(12)]
+    for cls in (riscv_cf.BeqOp, riscv_cf.BneOp, riscv_cf.BltOp, riscv_cf.BgeOp, riscv_cf.BltuOp, riscv_cf.BgeuOp):
+        for a, b in pairs:
+            for w in (32, 64):
+                try:
+                    g = "bool " + ("true" if cls.const_evaluate(None, a, b, w) else "false")  # type: ignore[arg-type]
+                except Exception as e:  # noqa: BLE001
+                    g = "raise " + core.exc_name(e)
+                gen_lines.append(f"RiscvPyOps.cf_{cls.__name__}_const_evaluate {a} {b} {w}")
+                gen_expect.append(({"leg": "C", "kind": "const_evaluate", "class": cls.__name__, "rs1": a, "rs2": b, "bitwidth": w}, g))
+    vals = [0, 1, -1, 2047, 2048, -2048, -2049, 2**31 - 1, 2**31, -2**31, -2**31 - 1, 2**32 - 1, 2**32, 2**32 + 5, -2**32, 2**62, -2**63 - 1]
+    vals += [ctx.rng.randint(-2**34, 2**34) for _ in range(10)]
+    for v in vals:
+        gen_lines.append(f"RiscvPyOps.fits_si12 {v}")
+        gen_expect.append(({"leg": "C", "kind": "_fits_si12", "value": v}, "bool " + ("true" if cpr._fits_si12(v) else "false")))
+        for tys in ((i32,), (i32, i32), (i64,), (i32, i64)):
+            srcs = [IntegerAttr(0, t) for t in tys]
+            try:
+                r = cpr._folded_li_immediate(v, *srcs)
+                g = "none" if r is None else f"int {r.value.data}"
+                # i32 sources: the li constant is the 32-bit wrap of the exact result; a 64-bit source: the exact result
+                # itself (a signed 32-bit value that `li` loads identically at both register widths) or no fold
+                all32 = all(t == i32 for t in tys)
+                if r is not None and (not -2**31 <= r.value.data < 2**31 or (r.value.data - v) % 2**32 != 0
+                                      or (not all32 and r.value.data != v)):
+                    ctx.fail(CP + "_folded_li_immediate", "folded li immediate does not load the exact result",
+                             {"leg": "C", "kind": "_folded_li_immediate", "value": v, "sources": [str(t) for t in tys]},
+                             f"_folded_li_immediate({v}) with sources {[str(t) for t in tys]}", r.value.data,
+                             "the signed 32-bit wrap of the value (i32 sources) / the value itself or None (an i64 source)")
+            except Exception as e:  # noqa: BLE001
+                g = "raise " + core.exc_name(e)
+                ctx.fail(CP + "_folded_li_immediate", SIG_RAISE, {"leg": "C", "kind": "_folded_li_immediate", "value": v, "sources": [str(t) for t in tys]},
+                         f"_folded_li_immediate({v}) raised", g, "an IntegerAttr or None")
+            gen_lines.append(f"RiscvPyOps.folded_li_immediate {v} {1 if all(t == i32 for t in tys) else 0}")
+            gen_expect.append(({"leg": "C", "kind": "_folded_li_immediate", "value": v, "sources": [str(t) for t in tys]}, g))
+            ctx.ev()
+    try:
+        outs = run_generated(gen_lines)
+    except core.InfraError:
+        if any(f.kind == "broken-proof" for f in ctx.failures):
+            ctx.count("generated.driver_unavailable")
+            return
+        raise
+    for line, (case, want), got in zip(gen_lines, gen_expect, outs):
+        ctx.count("generated.compared")
+        if got == "bad-op":
+            ctx.count("generated.not_translated")
+            continue
+        if got != want:
+            ctx.mismatch("correspondence:C22/generated-kernels", dict(case, call=line), want, got,
+                         "real kernel vs its translation (lean/XdslModel/Generated/RiscvPyOps.lean)")
 
 
 # ================================================================================================
@@ -791,6 +1017,13 @@ def run_shift_kernels(ctx: core.Ctx) -> None:
 def run(ctx: core.Ctx) -> None:
     import time
     t0 = time.time()
+    from translate.generate import generate
+
+    rep = generate(core.REPO)
+    ctx.extra["translator"] = {"translated": len(rep["translated"]), "refused": rep["refused"], "regenerated_files": rep["changed_files"]}
+    for k, v in rep["refused"].items():
+        if ".RiscvPyOps." in k:
+            ctx.broken_proof(f"translator refused {k}", v)
     ctx.lean()
     ctx.extra["lean_build_audit_s"] = round(time.time() - t0, 1)
     ctx.exhaustive = False
@@ -799,7 +1032,8 @@ def run(ctx: core.Ctx) -> None:
     run_snippets(ctx)
     run_cf_snippets(ctx)
     run_pipeline(ctx)
-    ctx.extra["legs"] = {"A": "canonicalization snippets", "B": "pipeline programs, stage-wise", "C": "shift-fold kernels rv32/rv64"}
+    ctx.extra["legs"] = {"A": "canonicalization snippets", "B": "pipeline programs, stage-wise", "C": "fold kernels rv32/rv64/riscv_cf/pattern guards: oracle + translated definitions (driver_gen)",
+                         "B-tv": "proved validator on every emitted loop-free function"}
     ctx.extra["budget_s"] = t
 
 
@@ -846,6 +1080,10 @@ def replay(ctx: core.Ctx, body: dict) -> int:
         for s, obs, txt in res["stages"]:
             print(f"--- {s}: {obs[0][:2]}")
         want = pp.want_from_sem(o, p["ret_types"])
+        src = tv.src_of(m)
+        body = tv.body_of(res["prog"]) if res["prog"] is not None else None
+        if src is not None and body is not None:
+            print("proved validator (XdslProofs/C22Validate.lean):", ctx.model("riscv_validate", [tv.tv_line(src[0], body)])[0])
         bad = judge(p, case["entry_regs"], want, [(s, ob[0], txt) for s, ob, txt in res["stages"]]) if want is not None else None
         if bad:
             print(next(t for s, _, t in res["stages"] if s == bad[0]))
